@@ -15,7 +15,7 @@ LEVEL_TEXT = (
     'mutators the components that must move together are all updated on every mutating path. All-or-nothing: after the first '
     'mutation no raise is reachable, per-item loops over fallible mutators are flagged, every fallible second mutation is '
     'pre-validated (duplicate check, row count). Reads after growth: lazy caches of Index / IndexHierarchy / ArrayGO are refreshed '
-    'before every read. Cached leaf counts: an IndexLevelGO mutator that grows a node below the root resets the cached _length of every node recorded along its descent. Key-steered descent: an IndexLevelGO mutator that steps into a fixed child (targets[-1]) checks that the matched key component sits at that position and raises otherwise, before mutating. Not decided: failures raised implicitly by NumPy or hashing (MemoryError, unhashable labels).')
+    'before every read. Cached leaf counts: an IndexLevelGO mutator that grows a node below the root resets the cached _length of every node recorded along its descent. Key-steered descent: an IndexLevelGO mutator that steps into a fixed child (targets[-1]) checks that the matched key component sits at that position and raises otherwise, before mutating. Sibling offsets: IndexLevelGO.extend gives each adopted node the running length of its preceding siblings. Not decided: failures raised implicitly by NumPy or hashing (MemoryError, unhashable labels).')
 
 CLAIM = dict(
     text=LEVEL_TEXT,
@@ -42,3 +42,4 @@ def run(ctx: Ctx) -> None:
         frozen._r1_function(ctx, d, 'A-R1.slot-frozen', f, root)
     indexrules.ancestor_cache_invalidation(ctx)
     indexrules.descent_follows_key(ctx)
+    indexrules.sibling_offsets_running(ctx)
